@@ -241,7 +241,75 @@ func CheckC01(r *core.Run) {
 		c.KeepSmall = 24
 		c.ReadAll = false
 		c.ReopenPct = 5
+		if i%4 == 2 {
+			// open-time maintenance transactions (max-size update, release of free pages beyond a
+			// reduced limit) are commits too: their crash points are explored like any other
+			sizes := []uint64{64, 96, 128, 0, 200, 70}
+			c.MaxPages = sizes[(i/4)%len(sizes)]
+			c.KeepSmall = 60
+			rng := rand.New(rand.NewSource(c.Seed + 991))
+			c.OnTxEnd = func(e *fenv.Env, n int) {
+				if rng.Intn(5) != 0 {
+					return
+				}
+				nm := sizes[rng.Intn(len(sizes))] * uint64(e.PS)
+				if err := e.Resize(nm, false); err != nil {
+					panic(fmt.Sprintf("resize failed: %v", err))
+				}
+			}
+		}
 	})
+	// directed: crash points of the open-time transactions of a shrinking max-size update
+	// (header with the new limit, then the forced allocator commit that releases the free pages
+	// beyond it) on files whose free list changed shape in the transactions before
+	for k, v := range []struct {
+		initMeta uint32
+		max, newMax uint64
+	}{{4, 200, 100}, {0, 200, 100}, {4, 160, 90}, {8, 200, 64}} {
+		v := v
+		cfgs = append(cfgs, HistCfg{Name: fmt.Sprintf("c01-shrink-%d", k), Seed: r.Seed*31 + int64(k), PageSize: 1024,
+			MaxPages: v.max, InitMeta: v.initMeta, WALLimit: 1000, Txs: 0,
+			Script: func(e *fenv.Env) {
+				mustBegin(e, txfile.TxOptions{})
+				ids, err := e.Alloc(int(v.max) - 50)
+				if err != nil {
+					e.Rollback(false)
+					return
+				}
+				for i, id := range ids {
+					if i%9 == 0 || i < 25 {
+						e.Set(id, 4)
+					}
+				}
+				e.SetRoot(ids[0])
+				e.Commit()
+				mustBegin(e, txfile.TxOptions{})
+				for _, id := range ids[4:14] {
+					e.Free(id)
+				}
+				for _, id := range ids[int(v.newMax)-30:] {
+					e.Free(id)
+				}
+				e.Commit()
+				mustBegin(e, txfile.TxOptions{})
+				if got, err := e.Alloc(10); err == nil { // the low free pages are live again
+					for _, id := range got {
+						e.Set(id, 4)
+					}
+				}
+				e.Commit()
+				if err := e.Resize(v.newMax*1024, false); err != nil {
+					panic(fmt.Sprintf("resize failed: %v", err))
+				}
+				mustBegin(e, txfile.TxOptions{})
+				if got, err := e.Alloc(3); err == nil {
+					for _, id := range got {
+						e.Set(id, 4)
+					}
+				}
+				e.Commit()
+			}})
+	}
 	budget := crashBudget{MaxBits: r.Pick(5, 9), Random: r.Pick(4, 24), Tears: []int{1, 8, 33, 40, 79, 80, 83}, ContEvery: r.Pick(40, 25), Seed: r.Seed}
 	if r.Thorough() {
 		budget.Tears = nil
